@@ -317,7 +317,8 @@ GenericPairs == <<
   <<One, SMul(Num(<<16, 1>>), T10(8))>>,
   <<SMul(Num(<<1, 16>>), T10(-8)), Num(<<81, 16>>)>>,
   <<SMul(Num(<<81, 1>>), T10(8)), Num(<<16, 1>>)>>,
-  <<SMul(Num(<<16, 1>>), T10(-8)), SMul(Num(<<1, 16>>), T10(8))>>
+  <<SMul(Num(<<16, 1>>), T10(-8)), SMul(Num(<<1, 16>>), T10(8))>>,
+  <<Num(<<16, 1>>), Num(<<81, 1>>)>>            \* moderate integers: exact in every dtype from int8/float16 up
 >>
 BetaPairs == <<
   <<SMul(Num(<<3, 5>>), cC), SMul(Num(<<12, 13>>), cC)>>,
@@ -342,9 +343,23 @@ Shapes == {"q", "a", "v1", "v2"}
 NElem(sh) == IF sh = "q" THEN 1 ELSE 2
 MkObj(d, u, pair, dt, sh) == [d |-> d, u |-> u, v |-> IF sh = "q" THEN <<pair[1]>> ELSE pair, dt |-> dt, sh |-> sh]
 
-ResDt(dt, ip, path) == IF dt = "f4" /\ (ip \/ path = "same") THEN "f4" ELSE "f8"
-ResCls(en, sh) == IF en = "to_value" THEN (IF sh = "q" THEN "float" ELSE "ndarray")
-                  ELSE IF sh = "q" THEN "unyt_quantity" ELSE "unyt_array"
+\* dtypes: numpy kind + item size (c8 = complex64, c16 = complex128)
+AllDts == {"i1", "u1", "i2", "u2", "i4", "u4", "i8", "u8", "f2", "f4", "f8", "c8", "c16"}
+IntDts == {"i1", "u1", "i2", "u2", "i4", "u4", "i8", "u8"}
+IsCx(dt) == dt \in {"c8", "c16"}
+\* bytes of one real component
+Bytes(dt) == CASE dt \in {"i1", "u1"} -> 1 [] dt \in {"i2", "u2", "f2"} -> 2 [] dt \in {"i4", "u4", "f4", "c8"} -> 4 [] OTHER -> 8
+FloatOf(b, cx) == IF cx THEN (IF b <= 4 THEN "c8" ELSE "c16") ELSE (IF b <= 2 THEN "f2" ELSE IF b = 4 THEN "f4" ELSE "f8")
+\* the three dtype rules as coded: the copying equivalence route evaluates in double precision; the plain copying
+\* conversion returns the float of the same size (at least 2 bytes); the in-place routes keep the item size (1-byte
+\* integers cannot be converted in place); to_value of a quantity is a Python float/complex
+ResDt(dt, ip, path, en, sh) ==
+  IF en = "to_value" /\ sh = "q" THEN FloatOf(8, IsCx(dt))
+  ELSE IF ip THEN FloatOf(Bytes(dt), IsCx(dt))
+  ELSE IF path = "same" THEN FloatOf(IF Bytes(dt) < 2 THEN 2 ELSE Bytes(dt), IsCx(dt))
+  ELSE FloatOf(8, IsCx(dt))
+ResCls(en, sh, dt) == IF en = "to_value" THEN (IF sh = "q" THEN (IF IsCx(dt) THEN "complex" ELSE "float") ELSE "ndarray")
+                      ELSE IF sh = "q" THEN "unyt_quantity" ELSE "unyt_array"
 Raise(exc) == [k |-> "raise", exc |-> exc, path |-> "", v |-> <<>>, u |-> 0, cls |-> "", dt |-> ""]
 
 \* to_equivalent / convert_to_equivalent (array.py) + Equivalence.convert (equivalencies.py)
@@ -353,13 +368,15 @@ Outcome(o, q) ==
       tb == Units[q.tu].d
       ip == q.en \in InPlaceEntries IN
   IF ta = tb THEN            \* same-dimension shortcut: plain unit conversion, the equivalence is not consulted
-    [k |-> "ok", exc |-> "", path |-> "same", v |-> o.v, u |-> q.tu, cls |-> ResCls(q.en, o.sh), dt |-> ResDt(o.dt, ip, "same")]
+    IF ip /\ Bytes(o.dt) = 1 THEN Raise("ValueError")      \* "Can't convert memory buffer in place"
+    ELSE [k |-> "ok", exc |-> "", path |-> "same", v |-> o.v, u |-> q.tu, cls |-> ResCls(q.en, o.sh, o.dt), dt |-> ResDt(o.dt, ip, "same", q.en, o.sh)]
   ELSE IF ta \notin EqDims(q.eq) THEN Raise("InvalidUnitEquivalence")       \* has_equivalent gate
   ELSE IF tb \notin EqDims(q.eq) THEN Raise("InvalidUnitEquivalence")       \* Equivalence.convert membership check
+  ELSE IF ip /\ Bytes(o.dt) = 1 THEN Raise("TypeError")    \* no 1-byte float to retype the buffer to
   ELSE LET rs == [i \in DOMAIN o.v |-> RunProg(q.eq, ta, tb, q.k, o.v[i], ip)] IN
        IF \A i \in DOMAIN o.v : rs[i].ok
        THEN [k |-> "ok", exc |-> "", path |-> "equiv", v |-> [i \in DOMAIN o.v |-> rs[i].v], u |-> q.tu,
-             cls |-> ResCls(q.en, o.sh), dt |-> ResDt(o.dt, ip, "equiv")]
+             cls |-> ResCls(q.en, o.sh, o.dt), dt |-> ResDt(o.dt, ip, "equiv", q.en, o.sh)]
        ELSE [k |-> "undef", exc |-> "", path |-> "", v |-> <<>>, u |-> 0, cls |-> "", dt |-> ""]
 
 \* the object a later step sees
